@@ -54,6 +54,10 @@ def run (o : Outcomes) : List String → St → Answer × St
   | "return-if-no-operation" :: rest, s =>
       if !s.selected then (.panic "operation used before selection", s)
       else if !o.operationFound then (.operationError, s) else run o rest s
+  | "applyDefaults" :: rest, s =>
+      -- `applyDeclaredDefaults(operation, request)` ranges over `operation.VariableDefinitions`
+      if !s.selected || !o.operationFound then (.panic "nil operation dereferenced (operation.VariableDefinitions)", s)
+      else run o rest s
   | "plan" :: rest, s =>
       if !s.selected || !o.operationFound then (.panic "Plan called with a nil operation", s)
       else run o rest { s with planned := true, plans := s.plans + 1 }
